@@ -97,6 +97,9 @@ class TLCResult:
         m2 = re.search(r"Action property (\S+) is violated", out)
         if m2:
             self.invariant = m2.group(1)
+        m3 = re.search(r"Temporal property (\S+) was violated", out)
+        if m3:
+            self.invariant = self.invariant or m3.group(1)
         if "Temporal properties were violated" in out:
             self.invariant = self.invariant or "temporal"
         self.finished = "Model checking completed. No error has been found." in out or \
